@@ -8,7 +8,8 @@
      files_of pid d   the names in d that checkpoint_file_timestamp accepts for pipeline pid *)
 From Coq Require Import List ZArith Bool Permutation String.
 From IB Require Import Util.J Ckpt.Bincode Ckpt.Store.
-From IB Require Import Proofs.CkptBincode Proofs.CkptStore Proofs.CkptRetention Proofs.CkptMain.
+From IB Require Import Proofs.CkptBincode Proofs.CkptStore Proofs.CkptRetention Proofs.CkptMain
+     Proofs.CkptRecent.
 Import ListNotations.
 Open Scope Z_scope.
 
@@ -140,6 +141,23 @@ Theorem c12_retention :
       /\ (forall x, is_ckpt pid x = false -> dir_lookup d' x = dir_lookup d x).
 Proof. exact main_retention. Qed.
 
+(* when the filename timestamps of the pipeline's files are pairwise different (always the case
+   for names written by save itself) the outcome does not depend on the listing order at all: a
+   file survives iff fewer than m files of the pipeline have a greater timestamp *)
+Theorem c12_retention_determined :
+  forall readdir, listing_ok readdir ->
+  forall (m : Z) (d : dir) (s : cstate),
+    let pid := pipeline_id s in
+    let n := ckpt_name pid (timestamp s) in
+    let d1 := dir_write d n (encode s) in
+    dir_ok d -> 0 <= m -> is_u64 (timestamp s) -> name_ok n = true ->
+    (forall x y, In x (files_of pid d1) -> In y (files_of pid d1) ->
+                 ts_key pid x = ts_key pid y -> x = y) ->
+    forall x, In x (files_of pid d1) ->
+      (In x (files_of pid (snd (save readdir (Some m) d s)))
+       <-> Z.of_nat (List.length (newer_than (ts_key pid) x (files_of pid d1))) < m).
+Proof. exact retention_determined. Qed.
+
 (* a file is a checkpoint of at most one pipeline: `checkpoint_a_b_200.bin` is a_b's, not a's *)
 Theorem c12_owner_unique :
   forall p1 p2 n, is_ckpt p1 n = true -> is_ckpt p2 n = true -> p1 = p2.
@@ -156,6 +174,21 @@ Theorem c12_retention_history :
     In p (map pipeline_id h) ->
     Z.of_nat (List.length (files_of p (run_saves readdir (Some m) d h))) <= m.
 Proof. exact history_bounded. Qed.
+
+(* ... and what it keeps are most recent ones of everything it ever had: F = its files in the
+   initial directory and every name saved for it; no file of F that is gone is newer than one
+   that is still there (timestamps in any order, overwrites and re-saves included) *)
+Theorem c12_history_recent :
+  forall readdir, listing_ok readdir ->
+  forall m h d p,
+    dir_ok d -> 0 <= m ->
+    Forall (fun s => is_u64 (timestamp s)
+                     /\ name_ok (ckpt_name (pipeline_id s) (timestamp s)) = true) h ->
+    let F := files_of p d ++ saved_names p h in
+    let K := files_of p (run_saves readdir (Some m) d h) in
+    incl K F
+    /\ (forall k x, In k K -> In x F -> ~ In x K -> ts_key p x <= ts_key p k).
+Proof. exact history_recent. Qed.
 
 (* ------------------------------------------------------------------ 5. latest, clear *)
 
@@ -279,7 +312,16 @@ Example ex_retention :
      = [false; false; false; false; false; false; false; true; true; true; true].
 Proof. repeat split; vm_compute; reflexivity. Qed.
 
-(* c12_retention_history: an interleaved history over two pipelines *)
+(* c12_retention_determined: the timestamps in the example directory are pairwise different *)
+Example ex_determined :
+  map (ts_key (string_bytes "a"))
+      (files_of (string_bytes "a")
+                (dir_write ex_dir (ckpt_name (string_bytes "a") 150) (encode (ex_save "a" 150))))
+  = [150; 100; 300; 50].
+Proof. vm_compute. reflexivity. Qed.
+
+(* c12_retention_history / c12_history_recent: an interleaved history over two pipelines,
+   timestamps out of order *)
 Example ex_history :
   let h := [ex_save "a" 5; ex_save "a_b" 9; ex_save "a" 3; ex_save "a_b" 1; ex_save "a" 400] in
   Forall (fun s => is_u64 (timestamp s)
